@@ -151,6 +151,11 @@ def check(tier: str, seed: int, t0: float, build: core.BuildStatus) -> int:
                 c = semrun.translate(be, src, None, model)
                 oc.evaluations += 1
                 hist["fragment:" + c.status] += 1
+                if c.status == "refused" and c.note.startswith("func_adl front end"):
+                    # the third-party client library could not build the query object (its type-following pass raises on
+                    # some shapes, e.g. a unary minus on a call inside a dict): no input reached /repo
+                    hist["fragment:frontend-could-not-build"] += 1
+                    continue
                 if c.status != "ok":
                     oc.violations.append(core.Violation(
                         key="c01:fragment-" + c.status,
@@ -200,6 +205,9 @@ def check(tier: str, seed: int, t0: float, build: core.BuildStatus) -> int:
                 c = semrun.translate(be, src, None, model)
                 oc.evaluations += 1
                 hist[f"f1:{kind}:{'filter' if sx[0] else 'nofilter'}:" + c.status] += 1
+                if c.status == "refused" and c.note.startswith("func_adl front end"):
+                    hist["f1:frontend-could-not-build"] += 1
+                    continue
                 if c.status != "ok":
                     oc.violations.append(core.Violation(
                         key="c01:fragment-" + c.status,
